@@ -363,8 +363,21 @@ class GenericPlainRegistry(Generic[QuantityT, UnitT], metaclass=RegistryMeta):
 
     def __deepcopy__(self: Self, memo) -> type[Self]:
         new = object.__new__(type(self))
+        # Objects holding a reference to this registry must refer to the copy.
+        memo[id(self)] = new
         new.__dict__ = copy.deepcopy(self.__dict__, memo)
         new._init_dynamic_classes()
+        # Instances of registry-bound classes (groups, systems) were copied as
+        # instances of the classes bound to the original registry: rebind them.
+        for value in list(new.__dict__.values()):
+            if not isinstance(value, dict):
+                continue
+            for obj in value.values():
+                cls = type(obj)
+                if getattr(cls, "_REGISTRY", None) is self:
+                    new_cls = getattr(new, cls.__name__, None)
+                    if isinstance(new_cls, type):
+                        obj.__class__ = new_cls
         return new
 
     def __getattr__(self, item: str) -> UnitT:
